@@ -67,7 +67,7 @@ var wrapGenesis = false // total supply within a few block mints of 2^64
 
 func ledgerGenesis(big64, empty bool) GenesisSpec {
 	gs := GenesisSpec{Stakes: []uint64{1000000, 2, 2, 1, 0, 0}, Accounts: 3, Balance: 100000,
-		Committees: [][]uint64{{1}, {1, 2}, {1}, {1, 2}, nil, nil},
+		Committees: [][]uint64{{1}, {2, 1}, {1}, {1, 2}, nil, nil},
 		Params: func(p *fsm.Params) {
 			p.Validator.UnstakingBlocks = 3
 			p.Validator.DelegateUnstakingBlocks = 2
@@ -292,6 +292,20 @@ func (s *ledgerSim) block(b BlockSpec, note string) (ok bool) {
 		s.finish(ps)
 		s.hist = hist
 		ps.HistOK, ps.HistChecked = true, 0
+		// the committee of the current height is a question about the COMMITTED state: the proposer's working copy (which
+		// holds the uncommitted transactions of its proposal) must give the same answer as the committed state machine
+		for _, chain := range []uint64{1, 2} {
+			a, e1 := n.c.Mempool.FSM.LoadCommittee(chain, n.c.Mempool.FSM.Height())
+			b, e2 := n.c.FSM.LoadCommittee(chain, n.c.FSM.Height())
+			ps.HistChecked++
+			if (e1 == nil) != (e2 == nil) {
+				ps.HistOK = false
+			} else if e1 == nil {
+				if a.TotalPower != b.TotalPower || a.MinimumMaj23 != b.MinimumMaj23 || a.NumValidators != b.NumValidators {
+					ps.HistOK = false
+				}
+			}
+		}
 		_ = s.out.Encode(LedgerLine{Kind: "proposal", Run: s.run, Scan: ps, Small: s.small, Included: line.Included, Note: note})
 	}
 	// certificate results: reward recipients and double signers as the script says
@@ -404,10 +418,10 @@ func randomBlock(rng *rand.Rand, nv, na int) BlockSpec {
 			o.Op, o.Who, o.To, o.Amt = "send", rng.Intn(na), rng.Intn(na), uint64(rng.Intn(5000))
 		case 1:
 			o.Op, o.Amt, o.Deleg, o.Compnd = "stake", uint64(1+rng.Intn(4)), rng.Intn(4) == 0, rng.Intn(2) == 0
-			o.Comm = [][]uint64{{1}, {1, 2}, {2}, {1, 2, 3}}[rng.Intn(4)]
+			o.Comm = [][]uint64{{1}, {1, 2}, {2}, {1, 2, 3}, {2, 1}, {3, 1, 2}}[rng.Intn(6)] // committee lists are stored as submitted (unsorted too)
 		case 2:
 			o.Op, o.Amt, o.Compnd = "edit", uint64(rng.Intn(6)), rng.Intn(2) == 0
-			o.Comm = [][]uint64{{1}, {1, 2}, {2}, {1, 3}}[rng.Intn(4)]
+			o.Comm = [][]uint64{{1}, {1, 2}, {2}, {1, 3}, {2, 1}, {3, 1}}[rng.Intn(6)]
 		case 3, 4:
 			o.Op = "pause"
 		case 5:
